@@ -341,6 +341,36 @@ Proof.
   do 3 f_equal; f_equal; apply tab2_ext; intros i k Hi Hk; now rewrite fibre_tab3.
 Qed.
 
+(* ---- OpsC07's cumsum / max of a boolean (T x B) tensor along dimension 0 (`_lens_from_eos(tok, eos, 0)`) ------ *)
+Lemma fibre_tab2_0 : forall {X} (d : X) T B f b, b < B ->
+  fibre d T B (tab2 T B f) 0 b = map (fun t => f t b) (seq 0 T).
+Proof. intros. unfold fibre. apply map_ext_seq. intros t Ht. cbn [Nat.mul Nat.add]. now apply nth_tab2. Qed.
+
+Lemma cumsum_bool_2 : forall T B m,
+  cumsum_bool (mkTn [T; B] (tab2 T B m)) 0 =
+  Some (mkTn [T; B] (tab2 T B (fun t b => nth t (run_sum 0 (map b2z (map (fun s => m s b) (seq 0 T)))) 0%Z))).
+Proof.
+  intros. unfold cumsum_bool. cbn [rank shp dat length]. change (wrap_dim 2 0) with (Some 0).
+  cbv beta iota zeta. cbn [outer extent inner firstn skipn nth numel]. do 2 f_equal. rewrite tab3_1.
+  apply tab2_ext. intros t b Ht Hb. now rewrite fibre_tab2_0.
+Qed.
+
+Lemma max_bool_2 : forall T B m, T <> 0 ->
+  max_bool (mkTn [T; B] (tab2 T B m)) 0 =
+  Some (Some (mkTn [B] (map (fun b => match first_true (map (fun t => m t b) (seq 0 T)) with
+                                      | Some _ => true | None => false end) (seq 0 B)),
+              mkTn [B] (map (fun b => match first_true (map (fun t => m t b) (seq 0 T)) with
+                                      | Some j => Z.of_nat j | None => 0%Z end) (seq 0 B)))).
+Proof.
+  intros T B m HT. unfold max_bool. cbn [rank shp dat length]. change (wrap_dim 2 0) with (Some 0).
+  cbv beta iota zeta. cbn [outer extent inner drop_dim firstn skipn nth numel app].
+  replace (T =? 0) with false by (symmetry; now apply Nat.eqb_neq).
+  rewrite !tab2_1. do 3 f_equal; f_equal; apply map_ext_seq; intros b Hb; now rewrite fibre_tab2_0.
+Qed.
+
+Lemma max_bool_2_empty : forall B d, max_bool (mkTn [0; B] d) 0 = Some None.
+Proof. reflexivity. Qed.
+
 (* ---- floats that are integers over a common denominator ------------------------------------------------------ *)
 Definition qz (s : positive) (z : Z) : Q := Qred (z # s).
 
